@@ -233,6 +233,43 @@ static void kernel(const std::vector<std::string>& t)
 }
 
 // ---------------------------------------------------------------- scenario driver instances
+// ---- C10/C11: queue trace (events reported by the guarded hooks of the library, in one total order)
+struct QRec { int thr; char ev; char q; uintptr_t ptr; size_t a; };
+static std::vector<QRec> g_q_rec;
+static std::mutex g_q_mtx;
+static const void *g_q_free = nullptr, *g_q_stuffed = nullptr, *g_q_impl = nullptr;
+static bool g_q_perturb = false;
+static thread_local int t_role = -1;             // producer index of the calling thread; -1: a thread of the library
+static thread_local uint64_t t_rng = 0;
+static void q_record(int thr, char ev, char q, uintptr_t ptr, size_t a)
+{
+  std::lock_guard<std::mutex> lg(g_q_mtx);
+  g_q_rec.push_back(QRec{thr, ev, q, ptr, a});
+}
+static void q_hook(const void* obj, char ev, const void* item, size_t a)
+{
+  char q = (obj == g_q_free) ? 'F' : (obj == g_q_stuffed) ? 'S' : (obj == g_q_impl) ? 'D' : '?';
+  if (q == '?') return;
+  q_record(t_role, ev, q, (uintptr_t)item, a);
+  // perturb the schedule at the points that are outside the queues' critical sections
+  if (g_q_perturb && (ev == 'g' || ev == 'n' || ev == 'd' || ev == 'e' || ev == 'V'))
+  {
+    if (!t_rng) t_rng = 0x9E3779B97F4A7C15ull ^ ((uint64_t)(t_role + 2) * 0xD1B54A32D192ED03ull) ^ (uint64_t)g_q_rec.size();
+    t_rng ^= t_rng << 13; t_rng ^= t_rng >> 7; t_rng ^= t_rng << 17;
+    unsigned r = (unsigned)(t_rng >> 33) % 16;
+    if (r < 4) std::this_thread::yield();
+    else if (r == 4) std::this_thread::sleep_for(std::chrono::microseconds(50));
+  }
+}
+static std::vector<uint8_t> q_packet(uint32_t tag)
+{
+  std::vector<uint8_t> b(64);
+  b[0] = 0xA5; b[1] = 0xFF;
+  b[2] = (uint8_t)(tag >> 24); b[3] = (uint8_t)(tag >> 16); b[4] = (uint8_t)(tag >> 8); b[5] = (uint8_t)tag;
+  for (size_t k = 6; k < b.size(); k++) b[k] = (uint8_t)(tag * 31u + k * 7u);
+  return b;
+}
+
 struct Inst
 {
   int idx;
@@ -241,6 +278,7 @@ struct Inst
   std::map<int, std::shared_ptr<PC>> bufs;
   std::unique_ptr<LidarDriver<PC>> drv;
   bool pktcb = false;
+  bool qmode = false; int slow_us = 0; std::atomic<long> qdecoded{0};
 
   int id_of(const std::shared_ptr<PC>& p) { for (auto& kv : bufs) if (kv.second == p) return kv.first; return -1; }
   // input configuration (N line)
@@ -282,6 +320,16 @@ struct Inst
   }
   void pkt(const Packet& p)
   {
+    if (qmode)
+    {
+      // tagged packet of a queue run: which packet is it, and are its bytes the ones that were fed?
+      uint32_t tag = p.buf_.size() >= 6 ? ((uint32_t)p.buf_[2] << 24 | (uint32_t)p.buf_[3] << 16 | (uint32_t)p.buf_[4] << 8 | p.buf_[5]) : 0xffffffffu;
+      bool ok = p.buf_ == q_packet(tag);
+      q_record(t_role, 'D', '-', tag, ok ? 1 : 0);
+      qdecoded++;
+      if (slow_us) std::this_thread::sleep_for(std::chrono::microseconds(slow_us));
+      return;
+    }
     std::lock_guard<std::recursive_mutex> lg(g_out_mtx);
     fprintf(OUT, "pkt %d %u %d %d %.9f %zu ", idx, p.seq, (int)p.is_difop, (int)p.is_frame_begin, p.timestamp, p.buf_.size());
     hexout(p.buf_.data(), p.buf_.size());
@@ -344,7 +392,60 @@ static int run_scenario(std::vector<std::string>& lines)
     const std::string& c = t[0];
     auto I = [&](size_t i) { return atol(t[i].c_str()); };
     if (c == "B") continue;
-    else if (c == "Z") { insts.erase((int)I(1)); }      // destroy the instance (driver destructor runs)
+    else if (c == "Z") { insts.erase((int)I(1)); }
+    else if (c == "Q")
+    {
+      // Q i nprod npkt prefill slow_us seed trace : tagged packets through the real queues with real threads
+      auto it = insts.find((int)I(1));
+      if (it == insts.end() || !it->second->drv) { fprintf(OUT, "nodrv %d\n", (int)I(1)); continue; }
+      Inst* in = it->second.get();
+      int nprod = (int)I(2), npkt = (int)I(3), prefill = (int)I(4); in->slow_us = (int)I(5);
+      bool trace = I(7) != 0;
+      in->qmode = true; in->qdecoded = 0;
+      auto impl = in->drv->driver_ptr_;
+      g_q_rec.clear(); g_q_rec.reserve(1 << 20);
+      g_q_free = &impl->free_pkt_queue_; g_q_stuffed = &impl->pkt_queue_; g_q_impl = impl.get();
+      g_q_perturb = I(6) != 0;
+      g_fake_clock = false; g_fake_wall = false;
+#ifdef RS_DRIVER_VERIF
+      if (trace) verifHook() = q_hook;
+#endif
+      auto feed = [in, trace](int role, int count, uint32_t base) {
+        t_role = role; t_rng = 0;
+        for (int k = 0; k < count; k++)
+        {
+          Packet pk; pk.buf_ = q_packet(base + (uint32_t)k);
+          q_record(role, 'f', '-', base + (uint32_t)k, 0);
+          in->drv->decodePacket(pk);
+        }
+      };
+      if (prefill > 0) feed(0, prefill, 0);
+      in->drv->start();
+      std::vector<std::thread> ths;
+      for (int r = 0; r < nprod; r++) ths.emplace_back(feed, r, npkt, (uint32_t)(r + 1) * 1000000u);
+      for (auto& th : ths) th.join();
+      // wait until the pipeline has drained and the decoder is idle
+      long last = -1; int stable = 0;
+      for (int k = 0; k < 20000 && stable < 15; k++)
+      {
+        bool empty;
+        { std::lock_guard<std::mutex> lg(impl->pkt_queue_.mtx_); empty = impl->pkt_queue_.queue_.empty(); }
+        long d = in->qdecoded;
+        if (empty && d == last) stable++; else stable = 0;
+        last = d;
+        std::this_thread::sleep_for(std::chrono::milliseconds(2));
+      }
+      in->drv->stop();
+#ifdef RS_DRIVER_VERIF
+      verifHook() = nullptr;
+#endif
+      in->qmode = false;
+      g_fake_clock = true; g_fake_wall = true;
+      fprintf(OUT, "qprod %d\n", nprod > 0 ? nprod : 1);
+      for (auto& r : g_q_rec) fprintf(OUT, "q %d %c %c %llx %zu\n", r.thr, r.ev, r.q, (unsigned long long)r.ptr, r.a);
+      fprintf(OUT, "qend %d %ld\n", in->idx, (long)in->qdecoded);
+      g_q_rec.clear();
+    }      // destroy the instance (driver destructor runs)
     else if (c == "PAR")
     {
       // the P lines up to ENDPAR are fed concurrently, one thread per instance (clocks stay as they are)
